@@ -508,6 +508,19 @@ v("C05","read-len","websocket_transport.go","""		n := copy(p, data)
 		return len(data), nil""",["R5"],"the original defect: n > len(p)")
 v("C01","node-trimspace","stanza/node.go",'	if n.Content != "" {','	if len(n.Content) > 0 && n.Content[0] != 32 {',["R9"],"content starting with a space dropped")
 
+
+v("C09","enabled-keeps-count","session.go","			s.SMState = SMState{Id: p.Id, preferredReconAddr: p.Location}","			s.SMState.Id = p.Id\n			s.SMState.preferredReconAddr = p.Location",["O2"],"counter not reset on <enabled/> (from seeded C09-1)")
+v("C10","answer-pointer","client.go","			answer := stanza.SMAnswer{XMLName: xml.Name{","			answer := &stanza.SMAnswer{XMLName: xml.Name{",["R2"],"<a/> sent as a pointer, which Send does not exempt (from seeded C10-1)")
+v("C12","report-and-continue","client.go","""				c.ErrorHandler(err)
+				c.disconnected(c.Session.SMState)
+				return
+			}
+		case stanza.StreamClosePacket:""","""				c.ErrorHandler(err)
+			}
+		case stanza.StreamClosePacket:""",["R1"],"failed answer reported, loop continues: loss reported twice (from seeded C12-1)")
+v("C13","as-pointer","stream_manager.go","			var actualErr ConnError","			var actualErr *ConnError",["R5"],"xerrors.As target never matches (from seeded C13-1)")
+v("C14","decode-in-place","session.go","	if s.err = s.transport.GetDecoder().Decode(&f); s.err != nil {","	f = s.Features\n	if s.err = s.transport.GetDecoder().Decode(&f); s.err != nil {",["O1"],"features decoded over the previous value: mechanisms accumulate")
+
 os.makedirs('/verif/variants', exist_ok=True)
 import glob
 for f in glob.glob('/verif/variants/*/*.json'):
